@@ -12,7 +12,7 @@ HUGE_BOUNDS = [(3, 2, 1, 1)]      # 2.0e6 states, ~10 min: C02 and C08 thorough 
 def explore(rep, want, bounds_list, prefixes, max_states=None):
     """prefixes: violation signature prefixes that belong to this property"""
     tot = dict(states=0, transitions=0, calls=0, accepted=0, refused=0, lockstep=0, fringe_calls=0,
-               core_states=0, terminal_states=0, card_groups=0, monitors=0)
+               core_states=0, terminal_states=0, card_groups=0, monitors=0, queries=0, impure_queries=0)
     phases = {}
     for bt in bounds_list:
         t0 = time.time()
@@ -40,6 +40,8 @@ def explore(rep, want, bounds_list, prefixes, max_states=None):
     c['fringe_transitions'] = c.get('fringe_transitions', 0) + tot['fringe_calls']
     c['terminal_states'] = c.get('terminal_states', 0) + tot['terminal_states']
     c['card_groups'] = c.get('card_groups', 0) + tot['card_groups']
+    c['read_only_queries_applied'] = c.get('read_only_queries_applied', 0) + tot.get('queries', 0)
+    c['read_only_queries_that_changed_the_object'] = c.get('read_only_queries_that_changed_the_object', 0) + tot.get('impure_queries', 0)
     c['states_by_phase'] = phases
     c['evaluations'] = c.get('evaluations', 0) + tot['calls']
     c['distinct_nontrivial'] = c.get('distinct_nontrivial', 0) + tot['states']
